@@ -7,6 +7,8 @@
 //        nB { ix lb ub }*                       bounded
 //        nS { nF Fk... knownN mu }*             state-limited friction
 //        nL { nF Fk... nN Nk... mu }*           constraint-limited friction
+//   <PGSB|PLUSB> maxIters tol m A[m*m] nD D[nD] rhs[m] nPart part...      solveBilateral (nD = 0: empty D vector; part in any order)
+//        -> "OK returned | pi[m]"
 // Output: "OK converged | pi[m] | verrStart_after[m] | contactCond[nC] | frictionCond[nC] | boundedCond[nB] | stateFricCond[nS] | consFricCond[nL]"
 #include "Simbody.h"
 #include "simbody/internal/ImpulseSolver.h"
@@ -32,6 +34,18 @@ int main() {
             const std::string kind = tk[ti++];
             const int maxIters = ni(); const Real tol = nf(); const int m = ni();
             Matrix A(m, m); for (int i=0;i<m;++i) for (int j=0;j<m;++j) A(i,j) = nf();
+            if (kind == "PGSB" || kind == "PLUSB") {
+                const int nD = ni(); Vector Db(nD); for (int i=0;i<nD;++i) Db[i] = nf();
+                Vector rhsb(m), pib; for (int i=0;i<m;++i) rhsb[i] = nf();
+                Array_<MultiplierIndex> partb; int npb = ni(); for (int i=0;i<npb;++i) partb.push_back(MultiplierIndex(ni()));
+                bool ret;
+                if (kind == "PGSB") { PGSImpulseSolver s(1e-3); s.setMaxIterations(maxIters); s.setConvergenceTol(tol); ret = s.solveBilateral(partb, A, Db, rhsb, pib); }
+                else { PLUSImpulseSolver s(1e-3); ret = s.solveBilateral(partb, A, Db, rhsb, pib); }
+                std::printf("OK %d |", ret ? 1 : 0);
+                for (int i=0;i<m;++i) std::printf(" %a", pib[i]);
+                std::printf("\n"); std::fflush(stdout);
+                continue;
+            }
             Vector D(m), verrStart(m), verrApplied(m), piExpand(m), pi;
             for (int i=0;i<m;++i) D[i] = nf();
             for (int i=0;i<m;++i) verrStart[i] = nf();
